@@ -70,6 +70,8 @@ type OpaqueV struct {
 	Type types.Type
 	// Dyn, when known, is the concrete value stored in an interface.
 	Dyn Value
+	// DynType: static type of Dyn when it is not recoverable from the value (named non-struct types).
+	DynType types.Type
 	// Num/Den: exact rational value of a float (Den > 0), when tracked.
 	Num *Term
 	Den *big.Int
